@@ -16,7 +16,8 @@ import (
 
 // LV is a static lvalue descriptor for interior pointers.
 type LV struct {
-	kind   int // lvCell lvStruct lvMem lvArr
+	gname  string // immutable struct global: fields are separate never-havocked components
+	kind   int    // lvCell lvStruct lvMem lvArr
 	comp   string
 	csort  string // sort of the cell value
 	ref    string // heap ref / mem base
@@ -91,6 +92,7 @@ type frame struct {
 	variant0    map[*ssa.BasicBlock]string
 	caller      *frame
 	boundDepth  int
+	ordOf       map[ssa.Instruction]int
 	escSites    map[ssa.Instruction][]string
 	fvBind      map[*ssa.FreeVar]TV
 	csUsed      map[*CallsiteC]bool
@@ -494,7 +496,12 @@ func (f *frame) lvalOf(v ssa.Value) *LV {
 	if g, ok := v.(*ssa.Global); ok {
 		et := g.Type().(*types.Pointer).Elem()
 		if _, ok := et.Underlying().(*types.Struct); ok {
-			return &LV{kind: lvStruct, ref: f.globalRef(g).T, ty: et, rootTy: et}
+			lv := &LV{kind: lvStruct, ref: f.globalRef(g).T, ty: et, rootTy: et}
+			if key := compGlobal(g); !f.eng().mutableGlobal(key) {
+				lv.gname = key
+				f.immGlobalFacts(g, key, et)
+			}
+			return lv
 		}
 		s := f.sortOf(et)
 		return &LV{kind: lvGlobal, comp: compGlobal(g), csort: s, ty: et, rootTy: et}
@@ -535,6 +542,15 @@ func (f *frame) subRef(si *structInfo, i int, ref string) string {
 }
 
 func (f *frame) fieldAddr(x *LV, i int) (*LV, *TV) {
+	if x.kind == lvStruct && x.gname != "" {
+		st := x.ty.Underlying().(*types.Struct)
+		ft := st.Field(i).Type()
+		name := x.gname + "." + st.Field(i).Name()
+		if _, ok := ft.Underlying().(*types.Struct); ok {
+			return &LV{kind: lvStruct, gname: name, ref: x.ref, ty: ft, rootTy: ft}, nil
+		}
+		return &LV{kind: lvGlobal, comp: name, csort: f.sortOf(ft), ty: ft, rootTy: ft}, nil
+	}
 	switch x.kind {
 	case lvStruct:
 		st := x.ty.Underlying().(*types.Struct)
@@ -621,6 +637,9 @@ func (f *frame) pathSet(v string, path []pathElem, nv string) string {
 }
 
 func (f *frame) load(st *bstate, lv *LV) TV {
+	if lv.kind == lvStruct && lv.gname != "" {
+		return TV{T: f.loadStructG(st, lv), S: f.sortOf(lv.ty), Ty: lv.ty}
+	}
 	switch lv.kind {
 	case lvStruct:
 		return TV{T: f.loadStruct(st, lv.ty, lv.ref), S: f.sortOf(lv.ty), Ty: lv.ty}
@@ -824,4 +843,56 @@ func (la *localAlloc) isPrivate(st *bstate) bool {
 		return true
 	}
 	return la.tracked && !st.leaked[la.ref.T]
+}
+
+// loadStructG: whole-struct load of an immutable struct global.
+func (f *frame) loadStructG(st *bstate, lv *LV) string {
+	u := lv.ty.Underlying().(*types.Struct)
+	si := f.sr().structSort(lv.ty)
+	var fs []string
+	for i := 0; i < u.NumFields(); i++ {
+		sub, _ := f.fieldAddr(lv, i)
+		if sub.kind == lvStruct {
+			fs = append(fs, f.loadStructG(st, sub))
+		} else {
+			fs = append(fs, f.readCell(st, sub))
+		}
+	}
+	return si.mk(fs)
+}
+
+// immGlobalFacts: constants stored into the global by package initialisation.
+func (f *frame) immGlobalFacts(g *ssa.Global, key string, et types.Type) {
+	if f.vc.funcsSeen["immfacts:"+key] {
+		return
+	}
+	f.vc.funcsSeen["immfacts:"+key] = true
+	f.vc.note("assumed: package-level variables never assigned outside init keep their initial value")
+	// flattened leaf names in objCells order
+	var names []string
+	var sorts []string
+	var walk func(prefix string, t types.Type)
+	walk = func(prefix string, t types.Type) {
+		st, ok := t.Underlying().(*types.Struct)
+		if !ok {
+			names = append(names, prefix)
+			sorts = append(sorts, f.sortOf(t))
+			return
+		}
+		for i := 0; i < st.NumFields(); i++ {
+			walk(prefix+"."+st.Field(i).Name(), st.Field(i).Type())
+		}
+	}
+	walk(key, et)
+	for _, ci := range f.eng().globalInit[key] {
+		if ci.cell < len(names) {
+			cv := f.constVal(ci.val)
+			if cv.S != sorts[ci.cell] {
+				continue
+			}
+			c := f.vc.declare(names[ci.cell]+"@e0", sorts[ci.cell])
+			f.vc.comps[names[ci.cell]] = sorts[ci.cell]
+			f.vc.assert(eq(c, cv.T))
+		}
+	}
 }
